@@ -4,6 +4,7 @@ import (
 	"fmt"
 	"math/big"
 	"sort"
+	"strings"
 
 	"github.com/formancehq/numscript/verifharness/rng"
 )
@@ -67,6 +68,8 @@ type LCfg struct {
 	PSrcAllot         int
 	PSrcSeq           int
 	PFunded           int // percent of starting balances that are plainly positive (1..30)
+	PSaveDrawn        int // percent of saves that name an account drawn from by an earlier statement, and of source picks that name a saved account
+	PAligned          int // percent of statements that are "aligned" sends (see alignedSend)
 	PLongSrc          int // percent of plain sends whose source is a flat list of 12..Fanout entries
 	PDstSeq           int
 	PDstAllot         int
@@ -111,6 +114,8 @@ type lgen struct {
 	nvar     int
 	asset    string              // current statement asset
 	used     []string            // accounts used in the current source
+	drawn    []string            // accounts earlier statements drew from
+	saved    []string            // accounts named by earlier saves
 	acctVars map[string]string   // value -> var name (reuse)
 	numVars  map[string]string   // decimal text -> number variable holding it
 	porVars  map[string]string   // portion text -> portion variable holding it
@@ -191,6 +196,9 @@ func fitsInt(n *big.Int) bool {
 }
 
 func (g *lgen) account() string {
+	if len(g.saved) > 0 && g.pct(g.cfg.PSaveDrawn) {
+		return rng.PickOf(g.r, g.saved)
+	}
 	if len(g.used) > 0 && g.pct(g.cfg.PRepeat) {
 		return rng.PickOf(g.r, g.used)
 	}
@@ -317,6 +325,18 @@ func (g *lgen) portionLit(p *big.Rat) Expr {
 			num := new(big.Rat).Mul(p, new(big.Rat).SetInt(den))
 			if num.IsInt() {
 				s := num.Num().String()
+				if g.r.Chance(1, 4) {
+					// the same value written with more decimals (any number up to 24)
+					intPart, frac := s, ""
+					if dec > 0 {
+						for len(s) <= dec {
+							s = "0" + s
+						}
+						intPart, frac = s[:len(s)-dec], s[len(s)-dec:]
+					}
+					frac += strings.Repeat("0", 1+g.r.Intn(24-dec))
+					return &Percent{Text: intPart + "." + frac + "%"}
+				}
 				if dec == 0 {
 					if g.r.Chance(1, 5) {
 						return &Percent{Text: s + "." + g.r.Pick("0", "00", "000") + "%"}
@@ -403,6 +423,9 @@ func (g *lgen) srcLeaf(allowUnbounded bool) Source {
 		}
 	}
 	g.used = append(g.used, name)
+	if name != "world" {
+		g.drawn = append(g.drawn, name)
+	}
 	if name == "world" && g.pct(g.cfg.POverdraft/2) {
 		// a (pointless but legal) bounded overdraft on @world
 		return &SrcOverdraft{Addr: &Account{Name: "world"}, Bounded: g.freeMonetary(g.asset)}
@@ -495,9 +518,18 @@ func (g *lgen) stmt() {
 	}
 	g.used = nil
 	w := g.r.Intn(100)
+	if g.pct(g.cfg.PAligned) {
+		g.alignedSend()
+		return
+	}
 	switch {
 	case w < g.cfg.PSave:
 		acct := g.account()
+		if len(g.drawn) > 0 && g.pct(g.cfg.PSaveDrawn) {
+			// mostly one of the accounts the previous statements drew from last
+			acct = g.drawn[len(g.drawn)-1-g.r.Intn(minInt(len(g.drawn), 6))]
+		}
+		g.saved = append(g.saved, acct)
 		var sv *SentValue
 		if g.r.Chance(1, 4) {
 			sv = &SentValue{All: true, E: g.assetExpr(g.asset)}
@@ -569,6 +601,82 @@ func (g *lgen) stmt() {
 	}
 }
 
+// Resplit cuts the text a + ":" + b at another colon: (x:y, z) -> (x, y:z).
+func Resplit(r *rng.R, a, b string) (string, string, bool) {
+	joined := a + ":" + b
+	var cuts []int
+	for i := 0; i < len(joined); i++ {
+		if joined[i] == ':' && i != len(a) && i > 0 && i < len(joined)-1 {
+			cuts = append(cuts, i)
+		}
+	}
+	if len(cuts) == 0 {
+		return "", "", false
+	}
+	i := cuts[r.Intn(len(cuts))]
+	return joined[:i], joined[i+1:], true
+}
+
+// alignedSend emits a send whose source is an in-order list s1..sk and whose destination is an
+// in-order list of caps, cap i being exactly what source i holds: the boundaries between the
+// senders and between the receivers coincide. Consecutive (source, destination) pairs are now and
+// then two different splits of one colon-joined text (a:b → c, then a → b:c).
+func (g *lgen) alignedSend() {
+	k := g.r.Range(2, 4)
+	src := &SrcInorder{}
+	dst := &DstInorder{}
+	total := new(big.Int)
+	seen := map[string]bool{}
+	ps, pd := "", ""
+	for i := 0; i < k; i++ {
+		s, d := g.account(), g.account()
+		if i > 0 && g.r.Chance(2, 3) {
+			if s2, d2, ok := Resplit(g.r, ps, pd); ok {
+				s, d = s2, d2
+			}
+		}
+		if seen[s] || s == "world" || d == "world" {
+			continue
+		}
+		seen[s] = true
+		ps, pd = s, d
+		if g.c.Balances[s] == nil {
+			g.c.Balances[s] = map[string]*big.Int{}
+		}
+		bal := g.c.Balances[s][g.asset]
+		if bal == nil || bal.Sign() <= 0 {
+			bal = big.NewInt(int64(1 + g.r.Intn(9)))
+			g.c.Balances[s][g.asset] = bal
+		}
+		total.Add(total, bal)
+		src.Srcs = append(src.Srcs, &SrcAccount{E: &Account{Name: s}})
+		cap, _ := g.monetaryExpr(g.asset, new(big.Int).Set(bal), false)
+		dst.Clauses = append(dst.Clauses, &DstClause{Cap: cap, To: &KOD{To: &DstAccount{E: &Account{Name: d}}}})
+	}
+	if len(src.Srcs) == 0 {
+		src.Srcs = append(src.Srcs, &SrcAccount{E: &Account{Name: "world"}})
+		total.SetInt64(3)
+	}
+	switch g.r.Intn(3) {
+	case 0:
+		dst.Remaining = &KOD{Kept: true}
+	case 1:
+		dst.Remaining = &KOD{To: &DstAccount{E: &Account{Name: g.account()}}}
+	default:
+		// the last capped clause becomes the remaining one
+		if n := len(dst.Clauses); n > 0 {
+			dst.Remaining = dst.Clauses[n-1].To
+			dst.Clauses = dst.Clauses[:n-1]
+		} else {
+			dst.Remaining = &KOD{Kept: true}
+		}
+	}
+	e, _ := g.monetaryExpr(g.asset, total, false)
+	g.c.Script.Stmts = append(g.c.Script.Stmts, &Send{Sent: &SentValue{E: e}, Src: src, Dst: dst})
+	g.c.Tune = append(g.c.Tune, nil)
+	g.c.Tags["aligned"] = true
+}
+
 // longSource is a flat in-order source of a dozen to Fanout entries, some of them capped (so that
 // the account keeps funds for later entries and statements), accounts repeating now and then.
 func (g *lgen) longSource() Source {
@@ -579,7 +687,9 @@ func (g *lgen) longSource() Source {
 	k := g.r.Range(12, hi)
 	s := &SrcInorder{}
 	for i := 0; i < k; i++ {
-		var e Source = &SrcAccount{E: g.accountExpr(g.account())}
+		name := g.account()
+		g.drawn = append(g.drawn, name)
+		var e Source = &SrcAccount{E: g.accountExpr(name)}
 		if g.r.Chance(1, 4) {
 			cap, _ := g.monetaryExpr(g.asset, big.NewInt(int64(g.r.Intn(12))), false)
 			e = &SrcCapped{Cap: cap, From: e}
@@ -665,6 +775,9 @@ func GenLedger(r *rng.R, cfg LCfg) *Case {
 			if c.Balances[a] == nil {
 				c.Balances[a] = map[string]*big.Int{}
 			}
+			if c.Balances[a][as] != nil {
+				continue // fixed while the statements were generated
+			}
 			c.Balances[a][as] = Balance(r, cfg.PBig, cfg.PNegBal)
 			if r.Intn(100) < cfg.PFunded {
 				c.Balances[a][as] = big.NewInt(int64(1 + r.Intn(30)))
@@ -712,4 +825,11 @@ func CopyExpr(e Expr) Expr {
 		return &Infix{Op: e.Op, L: CopyExpr(e.L), R: CopyExpr(e.R)}
 	}
 	return e
+}
+
+func minInt(a, b int) int {
+	if a < b {
+		return a
+	}
+	return b
 }
